@@ -140,6 +140,20 @@ def quorum_ack(cx):
         ctx = args[1]
         require(cx, c, cx.site_key(c, "call:advance"), "pending reads are released only behind has_quorum(recv_ack(from, ctx)) for the same ctx", _quorum_ack_lit(cx, ctx), kill=False, detail={"ctx": show(ctx)})
     ra = cx.fn("ReadOnly::recv_ack")
+    # an acknowledgement taken from a received message counts only if the message carries a read context: the
+    # periodic heartbeat's responses have none, may have been sent before the read was issued, and must not
+    # confirm a read whose own context happens to be empty
+    nmsg = 0
+    for c in callers_of(cx, ra):
+        args = call_args(cx, c)
+        if not (contains(fld("Message.context"), args[2]) and any(x[0] == "param" for x in walk(args[2]))):
+            continue
+        nmsg += 1
+        cexpr = [x for x in walk(args[2]) if x[0] == "field" and x[2] == "Message.context"][0]
+        def nonempty(l, cexpr=cexpr):
+            return l[0] == "is" and l[2] is False and l[1][0] == "call" and l[1][1].endswith("is_empty") and contains(cexpr, l[1])
+        require(cx, c, cx.site_key(c, "ack:context"), "a heartbeat response acknowledges pending reads only if it carries a non-empty context", nonempty, kill=False)
+    cx.check(nmsg >= 1, "ack:context:floor", "the heartbeat-response path recording read acknowledgements was found")
     callees = {sp.split("::")[-1] for sp, s in cx.prog.calls_out[ra.key] if s.kind == "call"}
     clos = [sp for sp, s in cx.prog.calls_out[ra.key] if s.kind == "closure"]
     for cp in clos:
